@@ -150,7 +150,7 @@ fn main() {
             println!("knobs {:?}", case.knobs);
             for (i, st) in case.steps.iter().enumerate() {
                 let b = st.brief();
-                println!("[{i}] {}", &b[..b.len().min(300)]);
+                println!("[{i}] {}", rng::cut(&b, 300));
             }
         }
         Some("determinism") => {
